@@ -53,7 +53,10 @@ def run_demo():
     ok = True
     for pkg, base in placed:
         names = re.findall(r"func (Test\w+)\(", open(os.path.join(wt, pkg, base)).read())
-        rc, out = sh(["go", "test", "-vet=off", "-count=1", "-run", "^(" + "|".join(names) + ")$", f"./{pkg}/"], cwd=wt)
+        if not names:
+            continue
+        race = ["-race"] if "-race" in democmd else []
+        rc, out = sh(["go", "test"] + race + ["-vet=off", "-count=1", "-run", "^(" + "|".join(names) + ")$", f"./{pkg}/"], cwd=wt)
         outs.append(out[-600:]); ok = ok and rc == 0
     return ok, outs
 ok_with, o1 = run_demo()
